@@ -394,9 +394,22 @@ def explore_fact(case):
         fl = [[float(x) for x in a] for a in flat]
         outs_d = conform_or_die(f, prog, fl, site)
         res.count("traces_validated_against_impl")
-        err = max(abs(a - float(b)) for od, om in zip(outs_d, outs) for a, b in zip(od, om))
-        if not err <= 1e-9 * (1 + max(abs(float(x)) for x in colmajor(P))):
-            res.fail(site=site, clause="double_matches_exact", cls="n=%d" % n, detail=dict(P=[[str(x) for x in r] for r in P], err=err), sub="fact", case=case)
+        # double precision: the property is the reconstruction of the input (backward stable also for nearly singular matrices); the factor
+        # entries themselves are compared with the exact ones only when no pivot is tiny (their sensitivity is 1 / smallest pivot)
+        pmax = max(abs(float(x)) for x in colmajor(P))
+        Ad = np.array(outs_d[0], dtype=float).reshape(n, n, order="F")
+        Dd = np.array(outs_d[1], dtype=float).reshape(n, n, order="F")
+        rec_err = float(np.max(np.abs(Ad @ Dd @ Ad.T - np.array([[float(x) for x in r] for r in P]))))
+        if not all(Fraction(float(x)) == x for x in colmajor(P)):
+            res.count("double_clauses_skipped_input_not_representable")  # (a pivot of 2^-60 next to entries of size 1 does not survive rounding the input)
+            continue
+        if not rec_err <= 1e-9 * (1 + pmax):
+            res.fail(site=site, clause="double_reconstructs_input", cls="n=%d" % n, detail=dict(P=[[str(x) for x in r] for r in P], err=rec_err), sub="fact", case=case)
+        piv = [abs(float(D[i][i])) for i in range(n)]
+        if min(piv) > 1e-6 * max(piv):
+            err = max(abs(a - float(b)) for od, om in zip(outs_d, outs) for a, b in zip(od, om))
+            if not err <= 1e-9 * (1 + pmax):
+                res.fail(site=site, clause="double_matches_exact", cls="n=%d" % n, detail=dict(P=[[str(x) for x in r] for r in P], err=err), sub="fact", case=case)
     res.samples.append(dict(fn=site, n=n))
     return res
 
